@@ -173,6 +173,15 @@ SetDenot(cs, v, i, k) ==
   IF cs.sh[v] = NoShape THEN CRej(cs, "no-shape")
   ELSE IF ~PyIdxOK(Len(cs.sh[v]), i) THEN CRej(cs, "index")
   ELSE COk([cs EXCEPT !.dn[v][PyIdx(Len(cs.sh[v]), i)] = k])
+\* value.merge_shapes(Shape(dims)) : dimension by dimension - equal stays, a concrete one (>= 0) wins over a symbolic
+\* one (-1), two different concrete ones are a conflict; a rank mismatch or a conflict rejects the WHOLE merge (C06:
+\* the dimensions before the conflicting one are as they were).  Without a shape the value takes a copy of dims.
+MergeDim(a, b) == IF a = b THEN a ELSE IF a >= 0 THEN a ELSE b
+MergeShapes(cs, v, dims) ==
+  IF cs.sh[v] = NoShape THEN SetShape(cs, v, dims)
+  ELSE IF Len(cs.sh[v]) # Len(dims) THEN CRej(cs, "rank")
+  ELSE IF \E i \in DOMAIN dims : cs.sh[v][i] >= 0 /\ dims[i] >= 0 /\ cs.sh[v][i] # dims[i] THEN CRej(cs, "conflict")
+  ELSE COk([cs EXCEPT !.sh[v] = [i \in DOMAIN dims |-> MergeDim(@[i], dims[i])]])
 MetaPut(cs, v, k) == COk([cs EXCEPT !.md[v] = @ \cup {k}])
 \* value.meta[k] = ... : the key is (again) valid;  value.meta.invalidate(k): the key is marked as to be recomputed
 \* (mi = the invalid keys of the value's metadata store - the store's own bookkeeping, copied by a clone)
@@ -190,6 +199,7 @@ CApply(cs, c) ==
     [] c.op = "SetType"      -> SetType(cs, c.v, c.name)
     [] c.op = "SetDtype"     -> SetDtype(cs, c.v, c.name)
     [] c.op = "SetShape"     -> SetShape(cs, c.v, c.vs)
+    [] c.op = "MergeShapes"  -> MergeShapes(cs, c.v, c.vs)
     [] c.op = "SetDim"       -> SetDim(cs, c.v, c.i, c.j)
     [] c.op = "SetDenot"     -> SetDenot(cs, c.v, c.i, c.name)
     [] c.op = "MetaPut"      -> MetaPut(cs, c.v, c.name)
